@@ -230,6 +230,38 @@ def follow_experiments(ctx, cs, count):
     return out
 
 
+def reconfigure_experiments(ctx, cs, count):
+    """a second, hand-built solver with a DIFFERENT configuration (tolerance, cadence, retention) is pointed at a directory that
+    already holds a run, loads it and continues saving there; restore(directory) afterwards must rebuild THAT solver - the one
+    whose checkpoints are the latest in the directory - configuration included"""
+    out = []
+    for i, c in enumerate([c for c in cs if c["solver"] in ("vi", "rvi", "pvi", "savi")][:count]):
+        d = str(ctx.scratch / f"c10c_{i}" / "ck")
+        cfg_a = dict(c["config"], checkpoint_dir=d, checkpoint_frequency=1, max_checkpoints=1, enable_async_checkpointing=False)
+        cfg_b = dict(c["config"], checkpoint_dir=d, checkpoint_frequency=2, max_checkpoints=3, enable_async_checkpointing=False, epsilon=c["config"]["epsilon"] / 4)
+        a = core.run_worker(ctx, [{"kind": "ckpt_run", "problem": c["problem"], "solver": c["solver"], "config": cfg_a, "ops": [["solve", 2]]}])[0]
+        if "error" in a:
+            out.append((c, {"error": a["error"], "message": a.get("message")}, None, None))
+            continue
+        b = core.run_worker(ctx, [{"kind": "ckpt_restore", "solver": c["solver"], "dir": d, "route": "load", "problem": c["problem"], "config": cfg_b, "ops": [["solve", 4]]}])[0]
+        r = core.run_worker(ctx, [{"kind": "ckpt_restore", "solver": c["solver"], "dir": d}])[0]
+        out.append((c, b, r, {"cfg_a": cfg_a, "cfg_b": cfg_b}))
+    return out
+
+
+def reconfigure_oracle(c, b, r):
+    for x, who in ((b, "second solver"), (r, "restore")):
+        if x is None or "error" in x or x.get("raised"):
+            return f"{who} failed: {(x or {}).get('error') or (x or {}).get('raised')}: {(x or {}).get('message', '')[:200]}"
+    if canon_cfg(r.get("config")) != canon_cfg(b.get("config")):
+        diff = {k: (canon_cfg(r["config"]).get(k), canon_cfg(b["config"]).get(k)) for k in canon_cfg(b["config"]) if canon_cfg(r["config"]).get(k) != canon_cfg(b["config"]).get(k)}
+        return f"restore(directory) rebuilt a solver whose configuration is not that of the solver that wrote the latest checkpoints: {str(diff)[:300]}"
+    why = compare_state(r["obs"][0], b["obs"][-1])
+    if why and why != "policy":
+        return f"restore(directory) after a reconfigured continuation: {why}"
+    return None
+
+
 def follow_oracle(c, r):
     if "error" in r or r.get("raised"):
         return f"following a directory that another solver writes to failed: {r.get('error') or r.get('raised')}: {r.get('message', '')[:200]}"
@@ -250,6 +282,12 @@ def run(ctx, build):
     corr, viols, items, meta = [], [], [], []
     n_restores = 0
     n_follow = 0
+    n_reconf = 0
+    for c, b, r, cfgs in reconfigure_experiments(ctx, cs, 1 if ctx.tier == "quick" else 8):
+        n_reconf += 1
+        why = reconfigure_oracle(c, b, r)
+        if why:
+            viols.append({"key": f"reconfigure:{c['seed']}", "what": why, "input": {"case": c, "reconfigure": cfgs}})
     for c, job, r in follow_experiments(ctx, cs, 2 if ctx.tier == "quick" else 12):
         n_follow += 1
         why = follow_oracle(c, r)
@@ -270,7 +308,7 @@ def run(ctx, build):
         for i in failing:
             corr.append({"what": "model decision (error kind / chosen step) and implementation disagree", "seed": meta[i]["seed"], "input": {"case": meta[i]}})
     cov = {
-        "evaluations": n_restores + n_follow, "follow_while_another_solver_writes_experiments": n_follow, "distinct_nontrivial": len({(c["solver"], c["problem"]["kind"], c["seed"]) for c in cs}) * 2,
+        "evaluations": n_restores + n_follow + n_reconf, "reconfigured_continuation_experiments": n_reconf, "follow_while_another_solver_writes_experiments": n_follow, "distinct_nontrivial": len({(c["solver"], c["problem"]["kind"], c["seed"]) for c in cs}) * 2,
         "rule": "solver x shipped problem (small parameterisations incl. Mirjalili's tuple-valued parameters, non-default seeds/period): fresh process saves with frequency 1 / retention 3, "
                 "then fresh processes restore by restore() default step, explicit older step, override combinations, load_checkpoint(), and from malformed directories; "
                 "runtime fields compared bit for bit (dtype and shape included) with what the saving process held at that save call; non-trivial = every restore that reads a real checkpoint",
@@ -290,6 +328,10 @@ def replay(ctx, build, data):
     if not inp:
         return {"fails": False, "note": "no concrete input"}
     c = inp["case"]
+    if "reconfigure" in inp:
+        for cc, b, r, _ in reconfigure_experiments(ctx, [c], 1):
+            why = reconfigure_oracle(cc, b, r)
+            return {"fails": bool(why), "why": why}
     if "follow_job" in inp:
         why = follow_oracle(c, core.run_worker(ctx, [inp["follow_job"]])[0])
         return {"fails": bool(why), "why": why}
